@@ -28,7 +28,96 @@ ASSUMPTIONS = [
 ]
 
 
+def gen_chat(rng: random.Random) -> dict:
+    """A gate-driven loop in which TWO ungated accumulators produce the same value (cmsgs): ask -> add_query -> generate -> add_response,
+    add_response also counts the turns, and the gate 'cont' routes back to ask while the count is below the limit."""
+    nodes = [
+        {"kind": "fn", "name": "cask", "params": [{"name": "cn"}], "outs": ["cq"]},
+        {"kind": "fn", "name": "caddq", "params": [{"name": "cmsgs"}, {"name": "cq"}], "outs": ["cmsgs"], "beh": "append", "beh_param": "cmsgs"},
+        {"kind": "fn", "name": "cgen", "params": [{"name": "cq"}], "outs": ["cr"]},
+        # (the two producers of cmsgs are ordered through the data path caddr -> cn -> cask -> cq -> caddq)
+        {"kind": "fn", "name": "caddr", "params": [{"name": "cmsgs"}, {"name": "cr"}, {"name": "cn"}], "outs": ["cmsgs", "cn"], "behs": [{"beh": "append", "param": "cmsgs"}, {"beh": "inc", "param": "cn"}]},
+    ]
+    limit = rng.randint(0, 4)
+    nodes.append({"kind": "route", "name": "ccont", "params": [{"name": "cn"}], "targets": ["cask", "@END"], "default_open": rng.random() < 0.5,
+                  "decide": {"op": "lt", "param": "cn", "value": limit, "then": "cask", "else": "@END"}})
+    order = list(range(len(nodes)))
+    rng.shuffle(order)
+    return {"kind": "chat", "limit": limit, "nodes": nodes, "order": order, "async": [gen.gen_async_cfg(rng) for _ in range(2)]}
+
+
+def chat_model(doc: dict) -> dict:
+    from hgsim.util import canon, mix
+
+    msgs: list = []
+    n = 0
+    counts = {k: 0 for k in ("cask", "caddq", "cgen", "caddr")}
+    while n < doc["limit"]:
+        q = mix("cask", 0, [("cn", canon(n))])
+        counts["cask"] += 1
+        msgs = msgs + [mix("caddq", "app", [("cq", canon(q))])]
+        counts["caddq"] += 1
+        r = mix("cgen", 0, [("cq", canon(q))])
+        counts["cgen"] += 1
+        msgs = msgs + [mix("caddr", "app", [("cn", canon(n)), ("cr", canon(r))])]
+        counts["caddr"] += 1
+        n += 1
+    return {"cmsgs": msgs, "cn": n, "counts": counts, "gate": doc["limit"] + 1}
+
+
+def run_chat(doc: dict) -> dict:
+    res = empty_result()
+    g = {"name": "chat", "nodes": doc["nodes"], "order": doc["order"], "ext": [], "lists": [], "seeds": ["cmsgs", "cn"]}
+    exp = chat_model(doc)
+    viol: list = []
+    rts = []
+    sigs = []
+    try:
+        for i, (mode, cfg) in enumerate([("sync", None)] + [("async", c) for c in doc["async"]]):
+            w = run_world(g, {"cmsgs": [], "cn": 0}, mode=mode, cfg=cfg, run_kwargs={"max_iterations": 60, "error_handling": "continue"})
+            rts.append(w["rt"])
+            res["runs"] += 1
+            sim_stats(res, w["out"])
+            out = w["out"]
+            tag = f"{mode}{i}[chat]"
+            if out["status"] == "raised" and out["error"] and out["error"][0] in ("GraphConfigError", "ValueError", "MissingInputError"):
+                res["discard"] = "chat_template_rejected"
+                return res
+            if out["status"] != "completed":
+                viol.append((f"{tag}:loop_run_not_completed", {"status": out["status"], "error": out["error"], "limit": doc["limit"]}))
+                continue
+            counts = {k: 0 for k in exp["counts"]}
+            gate = 0
+            for h in w["rt"].history:
+                if h["k"] == "enter":
+                    if h["n"] in counts:
+                        counts[h["n"]] += 1
+                    elif h["n"] == "ccont":
+                        gate += 1
+            if counts != exp["counts"]:
+                viol.append((f"{tag}:body_execution_count_differs_from_sequential_loop", {"got": counts, "expected": exp["counts"], "limit": doc["limit"]}))
+            elif gate != exp["gate"]:
+                viol.append((f"{tag}:gate_evaluations_differ_from_sequential_loop", {"got": gate, "expected": exp["gate"]}))
+            vals = out["values"] or {}
+            if doc["limit"] > 0 and (vals.get("cmsgs") != exp["cmsgs"] or vals.get("cn") != exp["cn"]):
+                viol.append((f"{tag}:final_values_differ_from_sequential_loop", {"got": {"cmsgs": vals.get("cmsgs"), "cn": vals.get("cn")}, "expected": {"cmsgs": exp["cmsgs"], "cn": exp["cn"]}}))
+            sigs.append(completion_sig(w["rt"]))
+    except BuildError:
+        res["discard"] = "build_error"
+        return res
+    res["violations"] = viol
+    res["nontrivial"] = doc["limit"] >= 2
+    res["stats"]["chat_template_cases"] = 1
+    res["shape"] = digest(["chat", doc["limit"], doc["order"]], 8)
+    res["sched"] = digest(sigs, 6)
+    res["sig"] = digest([res["shape"], res["sched"]], 8)
+    res["hdigest"] = hist_digest(rts)
+    return res
+
+
 def gen_case(rng: random.Random, tier: str) -> dict:
+    if rng.random() < 0.1:
+        return gen_chat(rng)
     blk = gen.loop_block(rng, "L")
     nested = rng.random() < 0.25
     if nested:
@@ -98,6 +187,8 @@ def _p(blk: dict) -> dict:
 
 
 def run_case(doc: dict) -> dict:
+    if doc.get("kind") == "chat":
+        return run_chat(doc)
     res = empty_result()
     blk = doc["blk"]
     g = _graph(doc)
@@ -189,6 +280,18 @@ def run_case(doc: dict) -> dict:
 def shrink_candidates(doc: dict):
     import random as _r
 
+    if doc.get("kind") == "chat":
+        if doc["limit"] > 1:
+            c = copy.deepcopy(doc)
+            c["limit"] -= 1
+            c["nodes"][-1]["decide"]["value"] = c["limit"]
+            yield c
+        if len(doc["async"]) > 1:
+            c = copy.deepcopy(doc)
+            c["async"] = doc["async"][:1]
+            yield c
+        return
+
     blk = doc["blk"]
     params = _p(blk)
     trials = []
@@ -233,6 +336,8 @@ def signature(doc: dict, cls: str, detail) -> str:
 
 
 def sample_repr(doc: dict, res: dict):
+    if doc.get("kind") == "chat":
+        return {"template": "chat loop: two ungated accumulators of one value, tick, gate cont", "limit": doc["limit"], "node_order": doc["order"]}
     return {"template": _p(doc["blk"]), "nested_in_dag": doc.get("nested"), "node_order": doc["order"], "entries": "every body entry point listed by graph.inputs.entrypoints", "max_iterations": "1..S+1",
             "schedules": [{"mode": a["schedule"]["mode"], "k": a["max_concurrency"]} for a in doc["async"]]}
 
